@@ -711,7 +711,12 @@ def _replay_safe(item):
 
 # ------------------------------------------------------------------------------------------ driver
 def _explore(cfg):
-    res = tlc.run_tlc(SPEC_DIR, MODULE, cfg, workers=1, heap="4g", timeout=1500)
+    try:
+        res = tlc.run_tlc(SPEC_DIR, MODULE, cfg, workers=1, heap="4g", timeout=1500)
+    except MachineryError as exc:  # a JVM killed on an overloaded machine: one more attempt, then give up
+        if "did not finish cleanly" not in str(exc):
+            raise
+        res = tlc.run_tlc(SPEC_DIR, MODULE, cfg, workers=1, heap="4g", timeout=1500)
     if not res.ok:
         raise MachineryError(f"TLC reports {res.violated} on {MODULE}/{cfg}: the specification violates its own "
                              f"invariants\n{res.raw_tail[-1500:]}")
